@@ -223,28 +223,14 @@ func (sr *StyleResolver) applyStyleDef(resolved *ResolvedStyle, def *styleDefXML
 
 // detectHeading determines if a style represents a heading.
 func (sr *StyleResolver) detectHeading(def *styleDefXML, resolved *ResolvedStyle) (bool, int) {
-	// Check for built-in heading style ID
-	if isHeading, level := detectBuiltInHeading(def.StyleID); isHeading {
-		return true, level
-	}
-
-	// Check style name for heading patterns
-	name := strings.ToLower(def.Name.Val)
-	if strings.HasPrefix(name, "heading") || strings.HasPrefix(name, "heading ") {
-		// Try to extract level from name
-		for i := 1; i <= 9; i++ {
-			if strings.Contains(name, strconv.Itoa(i)) {
-				return true, i
-			}
-		}
-		return true, 1 // Default to H1
-	}
-
-	// Check outline level
-	if def.PPr.OutlineLvl.Val != "" {
-		level := parseOutlineLevel(def.PPr.OutlineLvl.Val)
-		if level >= 0 && level <= 8 {
-			return true, level + 1 // OutlineLvl is 0-based
+	// The outline level is inherited through w:basedOn, so a custom style
+	// based on a heading style is a heading of the same level: check the
+	// style itself first, then the styles it is based on.
+	visited := make(map[string]bool)
+	for cur := def; cur != nil && !visited[cur.StyleID]; cur = sr.styles[cur.BasedOn.Val] {
+		visited[cur.StyleID] = true
+		if decided, isHeading, level := detectHeadingDef(cur); decided {
+			return isHeading, level
 		}
 	}
 
@@ -255,6 +241,37 @@ func (sr *StyleResolver) detectHeading(def *styleDefXML, resolved *ResolvedStyle
 	}
 
 	return false, 0
+}
+
+// detectHeadingDef checks a single style definition (without inheritance).
+// decided is false when the definition says nothing about headings.
+func detectHeadingDef(def *styleDefXML) (decided, isHeading bool, level int) {
+	// Check for built-in heading style ID
+	if isHeading, level := detectBuiltInHeading(def.StyleID); isHeading {
+		return true, true, level
+	}
+
+	// Check style name for heading patterns
+	name := strings.ToLower(def.Name.Val)
+	if strings.HasPrefix(name, "heading") || strings.HasPrefix(name, "heading ") {
+		// Try to extract level from name
+		for i := 1; i <= 9; i++ {
+			if strings.Contains(name, strconv.Itoa(i)) {
+				return true, true, i
+			}
+		}
+		return true, true, 1 // Default to H1
+	}
+
+	// Check outline level
+	if def.PPr.OutlineLvl.Val != "" {
+		level := parseOutlineLevel(def.PPr.OutlineLvl.Val)
+		if level >= 0 && level <= 8 {
+			return true, true, level + 1 // OutlineLvl is 0-based
+		}
+	}
+
+	return false, false, 0
 }
 
 // detectBuiltInHeading checks for Word's built-in heading style IDs.
